@@ -313,6 +313,12 @@ func evaluate(r *vh.Run, c connCase, p *plan, v h1x.View, got []h1x.Received, se
 			if q.HangUp {
 				qf += "(origin-hangs-up)"
 			}
+			if p.Long {
+				pos = "long-" + strconv.Itoa(i/16*16) + "+"
+			}
+			if q.Method != strings.ToUpper(q.Method) {
+				qf += "(mixed-case-method)"
+			}
 			if q.Proto == "HTTP/1.0" && q.KeepAlive {
 				qf += "(http10-keep-alive)"
 			}
